@@ -231,10 +231,23 @@ Definition le_type (e : lentry) : N :=
                   (match le_val e with Some _ => TYPE_METRIC | None => 0%N end) in
   if (tp =? 3)%N then 0%N else tp.
 
-Definition calls_loki_json (body : list lstream) : list call :=
-  map (fun s => let es := ls_entries s in
-                K (sanitize_labels (ls_labels s)) (map le_ts es) (map (fun e => opt_str (le_line e)) es)
-                  (map (fun e => opt_N (le_val e)) es) (map le_type es)) body.
+(* unmarshal.go decodeStream: the members of a stream object are handled in the order they arrive; "stream" and
+   "labels" append to the label buffer and re-sanitise it, "values" and "entries" append to the entry buffers,
+   any other key is skipped *)
+Inductive lmember := MLbl (l : labels) | MEnt (es : list lentry) | MOther.
+Definition member_step (st : labels * list lentry) (m : lmember) : labels * list lentry :=
+  match m with
+  | MLbl l => (sanitize_labels (fst st ++ l), snd st)
+  | MEnt es => (fst st, snd st ++ es)
+  | MOther => st
+  end.
+Definition decode_stream (ms : list lmember) : labels * list lentry := fold_left member_step ms ([], []).
+Definition members_of (s : lstream) : list lmember := [MLbl (ls_labels s); MEnt (ls_entries s)].
+
+Definition loki_call (lbls : labels) (es : list lentry) : call :=
+  K lbls (map le_ts es) (map (fun e => opt_str (le_line e)) es) (map (fun e => opt_N (le_val e)) es) (map le_type es).
+Definition calls_loki_json (body : list (list lmember)) : list call :=
+  map (fun ms => loki_call (fst (decode_stream ms)) (snd (decode_stream ms))) body.
 
 Definition calls_loki_pb (body : list lstream) : list call :=
   map (fun s => let es := ls_entries s in let n := List.length es in
@@ -369,7 +382,7 @@ Definition calls_otlp (body : list oreslog) : list call :=
 
 (* ---------------------------------------------------------------- the seven parsers *)
 Inductive body :=
-| BLoki (l : list lstream) | BLokiPb (l : list lstream) | BPrw (l : list pseries)
+| BLoki (l : list (list lmember)) | BLokiPb (l : list lstream) | BPrw (l : list pseries)
 | BInflux (precision : Z) (l : list iline) | BDDLog (l : list ddlog) | BDDMet (l : list ddseries)
 | BOtlp (l : list oreslog).
 
@@ -403,9 +416,19 @@ Definition row_of (fp : labels -> N) (ctx_ttl : N) (e : entry) : row :=
   let '(lbls, ttl) := labels_ttl ctx_ttl (e_labels e) in R (fp lbls) (e_ts e) (e_msg e) (e_val e) ttl (e_type e).
 Definition rows_spec (fp : labels -> N) (ctx_ttl : N) (es : list entry) : list row := map (row_of fp ctx_ttl) es.
 
-Definition entries_loki_json (body : list lstream) : list entry :=
-  flat_map (fun s => map (fun e => E (sanitize_labels (ls_labels s)) (le_ts e) (opt_str (le_line e)) (opt_N (le_val e)) (le_type e))
-                         (ls_entries s)) body.
+Definition loki_entries (lbls : labels) (es : list lentry) : list entry :=
+  map (fun e => E lbls (le_ts e) (opt_str (le_line e)) (opt_N (le_val e)) (le_type e)) es.
+(* a well-formed stream object: one label member (either syntax) and one entry member (either syntax), any
+   number of other keys, in any order *)
+Definition members_labels (ms : list lmember) : list labels := flat_map (fun m => match m with MLbl l => [l] | _ => [] end) ms.
+Definition members_entries (ms : list lmember) : list (list lentry) := flat_map (fun m => match m with MEnt e => [e] | _ => [] end) ms.
+Definition wf_members (ms : list lmember) (s : lstream) : Prop :=
+  members_labels ms = [ls_labels s] /\ members_entries ms = [ls_entries s].
+Definition entries_loki_streams (body : list lstream) : list entry :=
+  flat_map (fun s => loki_entries (sanitize_labels (ls_labels s)) (ls_entries s)) body.
+(* in general (repeated members) the stream is what the member sequence accumulates *)
+Definition entries_loki_json (body : list (list lmember)) : list entry :=
+  flat_map (fun ms => loki_entries (fst (decode_stream ms)) (snd (decode_stream ms))) body.
 Definition entries_loki_pb (body : list lstream) : list entry :=
   flat_map (fun s => map (fun e => E (sanitize_labels (ls_labels s)) (le_ts e) (opt_str (le_line e)) 0%N TYPE_LOG)
                          (ls_entries s)) body.
@@ -498,7 +521,8 @@ Fixpoint smp (l : list int) : list (Z * N) :=
 
 Inductive errkind := ENone | EPanic | EError.
 Record ftrow := FT { ft_labels : labels; ft_fp : N; ft_enclen : Z }.
-Record case := Case { c_id : Z; c_body : body; c_ctx_ttl : N; c_tab : list ftrow; c_obs : list chunk; c_err : errkind }.
+Inductive cachekind := CMiss | CSet.
+Record case := Case { c_id : Z; c_body : body; c_ctx_ttl : N; c_cache : cachekind; c_tab : list ftrow; c_obs : list chunk; c_err : errkind }.
 
 Definition kv_eqb (a b : string * string) : bool := String.eqb (fst a) (fst b) && String.eqb (snd a) (snd b).
 Fixpoint remove_first {A} (eqb : A -> A -> bool) (x : A) (l : list A) : option (list A) :=
@@ -535,8 +559,15 @@ Definition chunk_eqb (a b : chunk) : bool :=
 (* the harness runs with a cache that never reports a hit (a clustered deployment): every (day, fp) adds rows *)
 Definition miss_cache (cs : unit) (d : Z) (f : N) : unit * bool := (tt, true).
 
+(* ... or with a cache that remembers every (day, fingerprint) it was asked about (a standalone deployment, within one request) *)
+Definition set_cache (cs : list (Z * N)) (d : Z) (f : N) : list (Z * N) * bool :=
+  if existsb (fun e => (fst e =? d) && (snd e =? f)%N) cs then (cs, false) else ((d, f) :: cs, true).
+
 Definition model_result (c : case) : result :=
-  decode (tab_fp (c_tab c)) (tab_enclen (c_tab c)) unit miss_cache tt THRESHOLD FLUSH_LIMIT (c_ctx_ttl c) (c_body c).
+  match c_cache c with
+  | CMiss => decode (tab_fp (c_tab c)) (tab_enclen (c_tab c)) unit miss_cache tt THRESHOLD FLUSH_LIMIT (c_ctx_ttl c) (c_body c)
+  | CSet => decode (tab_fp (c_tab c)) (tab_enclen (c_tab c)) (list (Z * N)) set_cache [] THRESHOLD FLUSH_LIMIT (c_ctx_ttl c) (c_body c)
+  end.
 
 (* Influx: the fields of one line are visited in Go map order, so the rows of one line are compared as a
    multiset; groups = number of rows the line contributes *)
